@@ -83,6 +83,16 @@ class Replayer:
         return res
 
 
+    def hangs(self, case, timeout=10):
+        """does the native binary fail to answer this one case within `timeout` seconds?"""
+        inp = self.line(*case) + "\n"
+        try:
+            subprocess.run([self.binary], input=inp.encode(), stdout=subprocess.PIPE, stderr=subprocess.PIPE, timeout=timeout)
+            return False
+        except subprocess.TimeoutExpired:
+            return True
+
+
 def load_known_findings():
     p = os.path.join(VERIF, "known_findings.json")
     if not os.path.exists(p):
@@ -201,7 +211,8 @@ class Outcome:
 
 
 def write_evidence(prop, tier, seed, level, coverage, assumptions, wall_s, violations):
-    d = os.path.join(VERIF, "evidence")
+    # VERIF_EVIDENCE_DIR: development runs against patched copies must not overwrite the real evidence
+    d = os.environ.get("VERIF_EVIDENCE_DIR") or os.path.join(VERIF, "evidence")
     os.makedirs(d, exist_ok=True)
     ev = {
         "property_id": prop,
